@@ -8,7 +8,7 @@ from pyvc.spec import ContractSet
 
 HOME = os.environ.get('VERIF_HOME', os.path.dirname(os.path.dirname(os.path.abspath(__file__))))
 
-_MODULES = ['ghosts', 'externals', 'datatypes', 'consensus', 'coinstate', 'manager', 'network', 'mining', 'pow', 'local_peer', 'framing', 'codec', 'lemmas']
+_MODULES = ['ghosts', 'merkle', 'externals', 'datatypes', 'consensus', 'coinstate', 'manager', 'network', 'mining', 'pow', 'local_peer', 'framing', 'codec', 'lemmas']
 _cset = None
 
 
@@ -50,6 +50,13 @@ def _tx_key(eng, x, st):
 
 # level / notes per property; functions and lemmas come from the props tags on the contracts
 PROPS = {
+    'C17': dict(level='proof', native=['native.c17'],
+                explanation="get_merkle_root verified from source against the specification function mroot (loop invariant "
+                            "over the next level, recursion through the function's own contract with a decreasing length); "
+                            "Lean 4 lemma (re-checked every run) that mroot determines the ordered id list in the free hash "
+                            "algebra; bounded correspondence of the two specification texts; the tree / inclusion-proof "
+                            "functions are exercised for every length up to a bound and every position (reported under "
+                            "`bounded`, not counted as proved)"),
     'C07': dict(level='proof', native=['native.c07'],
                 explanation="per consensus class (8 classes, 2 tag dispatchers, the generic list codec inlined per element "
                             "class): the encoder appends exactly enc(self); whatever a decoder returns, re-encoding it gives "
